@@ -1,6 +1,6 @@
 (* C01 - Context teardown runs every callback exactly once, LIFO, one at a time. *)
 From Coq Require Import List Bool Arith Permutation.
-From Asphalt Require Import Td.TdModel Td.TdProofs.
+From Asphalt Require Import Td.TdModel Td.TdProofs Td.Lifecycle Gen.Gen_lifecycle.
 Import ListNotations.
 
 (* For every forest of callbacks (any number, any depth of callbacks registered during teardown),
@@ -69,3 +69,22 @@ Theorem C01_closed : forall is_root stack block,
   exists tr o, leave is_root stack block = Some (RR tr o true).
 Proof. exact (fun r s b => ex_intro _ _ (ex_intro _ _ (leave_total r s b))). Qed.
 Print Assumptions C01_closed.
+
+(* the teardown callbacks are the first thing that happens when the block is left, in a root and
+   in a child context (exit stack read from Context.__aenter__ on this run) *)
+Theorem C01_callbacks_run_first : forall has_parent, exists rest, unwinding has_parent = E_teardown_callbacks :: rest.
+Proof. exact callbacks_run_first. Qed.
+Print Assumptions C01_callbacks_run_first.
+
+(* shape of add_teardown_callback / _run_teardown_callbacks / __aexit__ as read from the source:
+   registrations are appended, the loop pops the last entry until the list is empty, hands over the
+   exception given to __aexit__, awaits awaitables, collects every BaseException in call order and
+   raises one BaseExceptionGroup from the exit exception *)
+Theorem C01_source_shape :
+  aexit_closing_before_stack = true /\ aexit_records_exception_before_stack = true /\
+  aexit_closed_in_finally = true /\ aexit_child_check_in_finally = true /\
+  td_registers_at_end = true /\ td_pops_last = true /\ td_arg_is_exit_exception = true /\
+  td_awaits_awaitable = true /\ td_catches_base_exception = true /\ td_collects_in_call_order = true /\
+  td_group_is_base_group = true /\ td_cause_is_exit_exception = true.
+Proof. exact lifecycle_shape. Qed.
+Print Assumptions C01_source_shape.
